@@ -108,7 +108,7 @@ func parseActs(tok string) (acts []dact, ph bool, ok bool) {
 		case "sh", "nr":
 			d.n = dxNatArg(arg(1), &bad)
 		case "hj":
-		case "nx", "ab", "dp", "kc":
+		case "nx", "ab", "dp", "kc", "qv", "cx":
 		case "pn":
 			d.pv = arg(1)
 		case "st", "sp":
@@ -523,6 +523,39 @@ func (cs *dcase) runActs(c *rux.Context, acts []dact, pos string) {
 			}
 			continue
 		}
+		if a.op == "qv" {
+			// the handler reads the URL query through the context and then edits the map it was given (url.Values is a
+			// map: `q.Set`, `q.Del` on one's own parsed copy is ordinary code).  Every request of these engines carries
+			// the same raw query; what a handler reads is what ITS request carries, not what an earlier handler left.
+			if !cs.isTwin {
+				q := c.QueryValues()
+				one, _ := c.QueryParam("page")
+				if got := q.Encode() + "|" + c.Query("token") + "|" + one; got != "page=1&token=abc|abc|1" {
+					cs.oracle = append(cs.oracle, fmt.Sprintf("C10 request %d with the raw query %q reads the query values %q through its context (an earlier reader's edits?)", cs.seq, c.Req.URL.RawQuery, got))
+				}
+				q.Set("page", "2")
+				q.Del("token")
+				q.Add("extra", "x")
+				dispStat("query_reads", 1)
+			}
+			continue
+		}
+		if a.op == "cx" {
+			// the request gets a derived context.Context that is cancelled when this handler returns or is unwound by a
+			// panic (`defer cancel()`, what a timeout middleware does); nothing rux does afterwards (the hooks, the commit of
+			// the response) may depend on it
+			kctx, cancel := context.WithCancel(c.Req.Context())
+			nr := c.Req.WithContext(kctx)
+			if id, ok := cs.altReqs[c.Req]; ok {
+				cs.altReqs[nr] = id
+			} else if c.Req == cs.curReq {
+				cs.curReq = nr
+			}
+			c.Req = nr
+			defer cancel()
+			dispStat("cancelled_request_contexts", 1)
+			continue
+		}
 		first := cs.actions == 0
 		cs.actions++
 		switch a.op {
@@ -918,6 +951,9 @@ func (cs *dcase) serve(f []string) string {
 	cs.trace, cs.log, cs.actions, cs.curCtx = nil, nil, 0, nil
 	cs.dn = dnState{}
 	cs.curReq = httptest.NewRequest(method, url, nil)
+	if cs.curReq.URL.RawQuery == "" {
+		cs.curReq.URL.RawQuery = "page=1&token=abc"
+	}
 	cs.curRec = &dispRecWriter{cs: cs, seq: cs.seq, hdr: http.Header{}}
 	outcome := "ret"
 	func() {
@@ -1555,6 +1591,9 @@ func (panicEngine) Gen(r *Rand, tier string) Case {
 	if o2, ok := dxJSONPStream(r, ops); ok {
 		ops, tag = o2, tag+"+jsonp"
 	}
+	if dxCancelStream(r, ops) {
+		tag += "+cx"
+	}
 	return Case{Ops: ops, Tag: "hook=" + tag}
 }
 
@@ -1626,6 +1665,49 @@ func dxaAbortHookStream(r *Rand, ops []string) ([]string, bool) {
 		}
 	}
 	return ops, true
+}
+
+// dxCancelStream (drawn after everything else of the case; one case in five): one or two handlers of the routes and
+// the global chain give the request a context.Context that is cancelled when the handler returns or is unwound by a
+// panic (action `cx`).  What the hooks and rux do afterwards must not depend on it.
+func dxCancelStream(r *Rand, ops []string) bool {
+	if !r.Chance(1, 5) {
+		return false
+	}
+	type pos struct{ i, j int }
+	var ps []pos
+	for i, op := range ops {
+		f := strings.Fields(op)
+		from := 0
+		switch {
+		case len(f) > 4 && f[0] == "route":
+			from = 4
+		case len(f) > 1 && f[0] == "use":
+			from = 1
+		default:
+			continue
+		}
+		for j := from; j < len(f); j++ {
+			if f[j] != "-" && f[j] != "PH" {
+				ps = append(ps, pos{i, j})
+			}
+		}
+	}
+	if len(ps) == 0 {
+		return false
+	}
+	for k, n := 0, r.Range(1, 2); k < n; k++ {
+		p := ps[r.Intn(len(ps))]
+		f := strings.Fields(ops[p.i])
+		acts := strings.Split(f[p.j], ",")
+		lo := 0
+		if acts[0] == "dp" {
+			lo = 1
+		}
+		f[p.j] = strings.Join(insertAt(acts, r.Range(lo, len(acts)), "cx"), ",")
+		ops[p.i] = strings.Join(f, " ")
+	}
+	return true
 }
 
 // dxSetHandlersStream (drawn after everything else of the case; one case in six): a handler of route A hands the
@@ -1802,6 +1884,36 @@ func (ctxEngine) Gen(r *Rand, tier string) Case {
 			*h = insertAt(*h, r.Range(lo, len(*h)), "kc")
 		}
 		tag += " copy"
+	}
+	// drawn after that: in a fifth of the cases one to three handlers read and edit the URL query, in a fifth one or
+	// two handlers give the request a context that is cancelled when they return
+	for _, tok := range []string{"qv", "cx"} {
+		if !r.Chance(1, 5) {
+			continue
+		}
+		var slots []*[]string
+		for i := range c.globals {
+			slots = append(slots, &c.globals[i])
+		}
+		for i := range c.routes {
+			for j := range c.routes[i].hs {
+				slots = append(slots, &c.routes[i].hs[j], &c.routes[i].hs[j])
+			}
+		}
+		if tok == "qv" {
+			for i := range c.notFound {
+				slots = append(slots, &c.notFound[i])
+			}
+		}
+		for i, k := 0, r.Range(1, 3); i < k && len(slots) > 0; i++ {
+			h := slots[r.Intn(len(slots))]
+			lo := 0
+			if len(*h) > 0 && (*h)[0] == "dp" {
+				lo = 1
+			}
+			*h = insertAt(*h, r.Range(lo, len(*h)), tok)
+		}
+		tag += " " + tok
 	}
 	if dxSetHandlersStream(g, c, &serves) {
 		tag += " sethandlers"
